@@ -49,12 +49,16 @@ class _Scripts(html.parser.HTMLParser):
         super().__init__(convert_charrefs=True)
         self.in_script = False
         self.scripts = []
+        self.srcs = []            # script elements that load a file: their src attributes, in document order
         self.cur = None
 
     def handle_starttag(self, tag, attrs):
         if tag == 'script':
             self.in_script = True
             self.cur = []
+            src = dict(attrs).get('src')
+            if src:
+                self.srcs.append(src)
 
     def handle_endtag(self, tag):
         if tag == 'script' and self.in_script:
@@ -79,6 +83,29 @@ def decode_html(text):
                 body = body[:-1]
             return json.loads(body)
     raise ValueError('no data script element found (%d script elements)' % len(p.scripts))
+
+
+def decode_page(path):
+    """The report data as a BROWSER gets it from the page: an inline script that assigns window.spendingData, or a script element
+    whose src names a local file that does (the split assembly).  A data file nothing on the page refers to is not part of the report."""
+    text = open(path, encoding='utf-8').read()
+    try:
+        return decode_html(text)
+    except ValueError:
+        pass
+    p = _Scripts()
+    p.feed(text)
+    p.close()
+    for src in p.srcs:
+        if '://' in src or src.startswith('//'):
+            continue
+        f = os.path.join(os.path.dirname(path), src)
+        if not os.path.isfile(f):
+            raise ValueError('the page loads %r, which does not exist next to it' % src)
+        js = open(f, encoding='utf-8').read().strip()
+        if js.startswith('window.spendingData ='):
+            return json.loads(js[len('window.spendingData ='):].rstrip().rstrip(';'))
+    raise ValueError('no script of the page (inline or loaded from %s) assigns window.spendingData' % (p.srcs,))
 
 
 # the end tag of a script element is recognised case-insensitively and with blanks before '>' (statements are often upper case)
@@ -185,8 +212,7 @@ def run_case(data_atoms, names, seed, with_views):
                 if embedded:
                     data = decode_html(open(path, encoding='utf-8').read())
                 else:
-                    js = open(os.path.join(tmpdir, 'spending_data.js'), encoding='utf-8').read().strip()
-                    data = json.loads(js[len('window.spendingData ='):].rstrip(';'))
+                    data = decode_page(path)
             except Exception as e:
                 fails.append(('html-does-not-decode', feats, 'embedded=%s: %s: %s' % (embedded, type(e).__name__, str(e)[:200])))
                 continue
